@@ -14,7 +14,7 @@ CONSTANTS
   GWs = {1}
   Buds = {0, 2}
   NSAs = {FALSE}
-  OptSets <- OptsBud
+  OptSets <- OptsBud2
   Budgets = {4}
 VIEW MCView
 INVARIANTS TypeOK AtMostOnce ExactlyOnce Unbiased KeptRowsFactorGE1 NoSampleAgentKept SameFactorInLeaf FitsNothingSampled FairShare FixedWithinBudget FairShareRemaining FitIsJustified Monotone KeptWithinBudget QuotaWithinTotal QuotaProportional QuotaFitIsSize QuotaWithinTotalAnyRounding ExportDone
